@@ -10,7 +10,7 @@ Lemma generated_rows_lex :
   rows_lex SQLite binop_rows_sl = true /\ rows_lex SQLite func_rows_sl = true /\ rows_lex SQLite sqop_rows_sl = true.
 Proof. repeat split; vm_compute; reflexivity. Qed.
 
-Theorem generated_tables_spell_lexably ftext more b : spellings_lex ftext b (tables_of more b).
+Theorem generated_tables_spell_lexably more b : spellings_lex b (tables_of more b).
 Proof.
   destruct generated_rows_lex as (A1 & A2 & A3 & B1 & B2 & B3 & C1 & C2 & C3).
   destruct b, more; cbn [tables_of]; apply mk_tables_spellings_lex; assumption.
